@@ -105,11 +105,10 @@ def generate(ctx):
     lists50 = behaviours_of(ctx.tlc_must("Slash", g_cfg(50, 2, 2, 1, "lists"), name="G1_lists_f50", timeout=600))
     lists2 = behaviours_of(ctx.tlc_must("Slash", g_cfg(2, 2, 2, 1, "lists"), name="G1_lists_f2", timeout=600))
     if quick:
-        # duplicates inside a list and two-evidence lists of the core set: keep the singletons and a seeded third of the pairs
-        singles = [b for b in core if len(b["blocks"][0]) <= 1]
-        doubles = [b for b in core if len(b["blocks"][0]) == 2]
-        behs += singles + rnd.sample(doubles, 24)
-        behs += rnd.sample(pairs2, 90) + rnd.sample(pairs50, 50) + rnd.sample(lists50, 30) + rnd.sample(lists2, 20)
+        # the core set is always run in full: every ordered list of up to two evidences of the list alphabet in one block
+        # (duplicates, decoy-then-genuine and genuine-then-decoy for the same and for different validators)
+        behs += core
+        behs += rnd.sample(pairs2, 80) + rnd.sample(pairs50, 40) + rnd.sample(lists50, 24) + rnd.sample(lists2, 16)
     else:
         # every pair combination once (fraction alternating by a seeded coin), every list behaviour for both fractions
         p2 = {json.dumps(b["blocks"], sort_keys=True): b for b in pairs2}
